@@ -1,9 +1,13 @@
 """Contracts for ipp/src/model.rs"""
 FILE = 'ipp/src/model.rs'
 
+_ENUMS = ['enum DelimiterTag', 'enum ValueTag', 'enum StatusCode', 'enum Operation', 'struct IppVersion']
+
 OPS = [
     {'op': 'prelude', 'text': '#[allow(unused_imports)] use vstd::prelude::*;'},
-    {'op': 'wrap', 'items': ['enum DelimiterTag', 'enum ValueTag']},
-    {'op': 'item_attr', 'item': 'enum DelimiterTag', 'text': '#[verifier::external_derive]'},
-    {'op': 'item_attr', 'item': 'enum ValueTag', 'text': '#[verifier::external_derive]'},
+    {'op': 'wrap', 'items': _ENUMS + ['impl IppVersion', 'impl StatusCode']},
+] + [{'op': 'item_attr', 'item': e, 'text': '#[verifier::external_derive]'} for e in _ENUMS] + [
+    {'op': 'fn', 'path': 'IppVersion::v1_1', 'ret': 'r', 'spec': '    ensures r.0 == 0x0101,'},
+    {'op': 'fn', 'path': 'StatusCode::is_success', 'ret': 'r',
+     'spec': '    ensures r <==> (*self as u16) <= 2,'},
 ]
